@@ -2,6 +2,7 @@ import Driver.Proto
 import Gotree.Spec.C15
 import Gotree.Model.C15HeapEdits
 import Gotree.Model.C15Cmd
+import Gotree.Model.C15Gen
 
 namespace Gotree.Driver.C15
 open Gotree Gotree.Driver Gotree.C15
@@ -553,21 +554,29 @@ def handleCore (cli : Bool) (op : String) (f : List String) : Verdict :=
     match unescape gtextE, (splitTerm "|" treesS).mapM T.undump, (splitTerm "|" outsS).mapM T.undump with
     | some gtext, some trees, some outs =>
       let ga : Option GroupArg := match gmode with
-        | "none" => some .absent | "missing" => some .missing | "file" => some (.file gtext) | _ => none
+        | "none" => some .absent | "missing" => some .missing | "file" => some (.file gtext)
+        | "gz" => some (.gzfile gtext) -- the .gz branch: gtext is the decompressed content (gzip.Reader is trusted)
+        | "fakegz" => some .missing    -- a .gz name on plain text: gzip.NewReader fails, the error is overwritten
+        | _ => none
       (match ga with
        | none => bad "C15.repop mode"
        | some ga =>
         let m := cliRepopulateFile ga trees
         let intended : Option (List (List String)) := if intendedS == "-" then none else parseStrLists intendedS
         let read := readGroupFile gtext
+        let isFile := gmode == "file" || gmode == "gz"
+        let lastLine := ((splitC '\n' gtext.toList).getLast?).getD []
+        let fullLast := gmode == "file" && !lastLine.isEmpty && lastLine.length % bufSize == 0
         let tags := ["repop", "g-" ++ gmode] ++ tagIf (trees.length ≥ 2) "multi-tree" ++
           tagIf (gtext.toList.contains '\r') "crlf" ++
-          tagIf (gmode == "file" && gtext != "" && gtext.toList.getLast? != some '\n') "no-final-newline" ++
+          tagIf (isFile && gtext != "" && gtext.toList.getLast? != some '\n') "no-final-newline" ++
+          tagIf (isFile && (readLines gtext.toList).any (·.length > 4096)) "line>4096" ++
           tagIf (read.contains [""]) "blank-line" ++ tagIf (read.any (·.length == 1)) "single-name-line" ++
-          tagIf (gmode == "file" && read.isEmpty) "empty-file" ++
+          tagIf (isFile && read.isEmpty) "empty-file" ++ tagIf fullLast "unterminated-last-line-fills-buffer" ++
+          tagIf (gmode == "gz" && !lastLine.isEmpty && lastLine.length % bufSize == 0) "gz-last-line-fills-buffer" ++
           tagIf (!m.2) "refused" ++ tagIf (!m.2 && !m.1.isEmpty) "refused-after-printing" ++
           tagIf (m.2 && m.1 != trees) "effective" ++
-          tagIf (gmode == "file" && intended == some read) "parse=written"
+          tagIf (isFile && intended == some read) "parse=written"
         let validFor (gs : List (List String)) (t : T) : Bool :=
           t.uniqueTips && !(t.tipNames.contains "") && !(gs.flatten.contains "") && !(dupLabels t) &&
           groupsAcceptable t gs
@@ -582,7 +591,7 @@ def handleCore (cli : Bool) (op : String) (f : List String) : Verdict :=
         if panicked outcome then ⟨.oracle, tags, "gotree repopulate crashed: " ++ outcome⟩
         else match intended with
           | some gs =>
-            if gmode == "file" && trees.all (validFor gs) then
+            if isFile && trees.all (validFor gs) then
               let tags := "valid" :: tags
               if outcome != "ok" then
                 ⟨.oracle, tags, "gotree repopulate failed although every group has exactly one existing member in every tree of the input (" ++
